@@ -168,3 +168,73 @@ def run_history(close_ticks, volume=0):
 
 def _h(df):
     return int(pd.util.hash_pandas_object(df.astype(str), index=True).sum())
+
+
+# ------------------------------------------------------------------------------------------------ option market fixture (C19)
+OPT_KEY = None
+OPT_A, OPT_B = "ETH-22SEP23-1650-C", "ETH-22SEP23-1700-C"
+
+
+def option_frame():
+    """four hourly snapshots of two instruments; every row holds its OWN python lists, as the csv loader produces them"""
+    import json
+    rows = []
+    for i, hour in enumerate(pd.date_range("2023-09-01 06:00:00", periods=4, freq="1h")):
+        for name, strike, mark, asks, bids in ((OPT_A, 1650, 0.0287, [[0.0285, 50], [0.029, 605], [0.0295, 197]], [[0.028, 51], [0.0275, 585]]),
+                                               (OPT_B, 1700, 0.0161, [[0.0165, 450], [0.017, 780]], [[0.0155, 446], [0.015, 879]])):
+            rows.append({"time": hour, "instrument_name": name, "state": "open", "type": "CALL", "strike_price": strike, "t": pd.Timedelta(days=21),
+                         "expiry_time": pd.Timestamp("2023-09-22 08:00:00"), "vega": 1.5, "theta": -1.1, "rho": 0.4, "gamma": 0.003, "delta": 0.5,
+                         "underlying_price": 1650.0 + i, "settlement_price": None, "mark_price": mark, "mark_iv": 29.0, "last_price": mark,
+                         "interest_rate": 0, "bid_iv": 28.0, "best_bid_price": bids[0][0], "best_bid_amount": bids[0][1], "ask_iv": 29.0,
+                         "best_ask_price": asks[0][0], "best_ask_amount": asks[0][1], "asks": json.loads(json.dumps(asks)), "bids": json.loads(json.dumps(bids))})
+    return pd.DataFrame(rows).set_index(["time", "instrument_name"]).sort_index()
+
+
+class BuyOption(Strategy):
+    """deposits, then buys `amount` contracts of `instrument` in the first bar"""
+    def __init__(self, instrument, amount):
+        super().__init__()
+        self.instrument, self.amount = instrument, amount
+        self.fills = ()
+
+    def on_bar(self, snapshot: Snapshot):
+        if snapshot.row_id == 0:
+            m = list(self.broker.markets.values())[0]
+            m.deposit(50)
+            if self.amount > 0:
+                orders, _ = m.buy(self.instrument, self.amount)
+                self.fills = tuple((str(o.price), str(o.amount)) for o in orders)
+
+
+def run_manager_options(strategies):
+    """run option strategies through BacktestManager (in-process path) over ONE shared order-book frame; returns per strategy
+    (fills, option cash, positions, final net value) and the frame's order-book cells before / after"""
+    from demeter import MarketTypeEnum
+    from demeter.deribit import DeribitOptionMarket
+    from demeter.deribit.helper import get_price_from_data
+    from demeter.core.backtest import BacktestManager
+    from demeter.core.actuator import Actuator
+    import logging
+    key = MarketInfo("option", MarketTypeEnum.deribit_option)
+    eth = DeribitOptionMarket.ETH
+    data = option_frame()
+    book0 = str([(i, data.at[i, "asks"], data.at[i, "bids"]) for i in data.index])
+    results = []
+    orig = Actuator.run
+
+    def run(self, *a, **k):
+        r = orig(self, *a, **k)
+        m = list(self.broker.markets.values())[0]
+        results.append((self.strategy.fills, str(m.balance), tuple(sorted((n, str(p.amount), str(p.avg_buy_price)) for n, p in m.positions.items())),
+                        str(self.final_status.net_value)))
+        return r
+    Actuator.run = run
+    logging.disable(logging.CRITICAL)
+    try:
+        BacktestManager(StrategyConfig(assets={eth: 100}, markets=[DeribitOptionMarket(key, eth)]), BacktestData({key: data}, (get_price_from_data(data), eth)),
+                        list(strategies), BacktestConfig(), threads=1).run()
+    finally:
+        Actuator.run = orig
+        logging.disable(logging.NOTSET)
+    book1 = str([(i, data.at[i, "asks"], data.at[i, "bids"]) for i in data.index])
+    return results, book0, book1
